@@ -330,7 +330,7 @@ def run_mono(P, C):
                 top = G.parent[top]                      # `else if` chain: the range test applies to the chain's head
             strides[order[0]] = (ct.replace(" ", ""), co == [order[1]], gw.full_range(G, top, order[1], "$3") if ifs else False)
     inits = [i for i in G.walk() if ts.assign_parts(G, i) and G.alpha(i)[0].replace(" ", "") == "(v0=(v1=1))" and set(G.alpha(i)[1]) == {s1, s2}]
-    ok = s1 is not None and strides.get(s1) == ("(v0<$10)", True, True) and strides.get(s2) == ("(v0>$10)", True, True) and len(inits) == 1
+    ok = s1 is not None and strides.get(s1) == ("(v0<$10)", True, True) and strides.get(s2) == ("($10<v0)", True, True) and len(inits) == 1
     C.ob("SG-3", "glamfit_complex", "strides", ok, G.where(),
          "both strides start at 1; the outer one is the product of the axes before the monotonic one, the inner one of those after it, over all dimensions: %s" % ok)
     C.ob("SG-3", "glamfit_complex", "no-later-writer", len(outs) == 2, G.where(), "out_coefficients is written by the copy-out and the prefix sum only (%d writers)" % len(outs))
